@@ -317,7 +317,15 @@ class Plan:
 
     def ir_request(self, inp, fuel):
         bv = self.builtin_values(inp["k"])
-        return {"ir": self.ir, "ep": self.ep_index, "globals": inp["globals"], "args": [bv[b] for b in self.builtin_args], "fuel": fuel}
+        gl = inp["globals"]
+        for h, sp, b, ty in self.globals:
+            # a runtime-sized buffer the entry point never touches still needs a length on the IR side (irrun cannot
+            # zero-initialise a runtime-sized array): zeros of the run's rt_len
+            if gl[h] is None and sp == "SpaceStorage" and self.T.is_runtime(ty) and self.T.supported(ty):
+                if gl is inp["globals"]:
+                    gl = list(gl)
+                gl[h] = self.T.gen_value(ty, None, "zero", inp["rt_len"])
+        return {"ir": self.ir, "ep": self.ep_index, "globals": gl, "args": [bv[b] for b in self.builtin_args], "fuel": fuel}
 
     def msl_request(self, ast, ep_name, inp, fuel):
         bv = self.builtin_values(inp["k"])
